@@ -84,8 +84,12 @@ def run(chk, replay=None):
     jsons = wits + argsf + ['{"A":{"value":"1","type":"u8"}}', "{}", '{"A":{"value":"(true, 0x0102)","type":"(bool, [u8; 2])"},"B":{"value":"None","type":"Option<u8>"}}']
     lines = []
     nmut = 25 if quick else 250
+    import layout
     for t in texts:
         lines.append("(entry program %s)" % quote(t))
+        # valid programs in other layouts: comments with multi-byte characters in front of calls, CRLF, tabs
+        for j in range(3 if quick else 12):
+            lines.append("(entry program %s)" % quote(layout.relayout(rng, t, crlf=rng.random() < 0.3, comments=True, comment_rate=0.5)))
         for _ in range(nmut):
             m = mutate(rng, t)
             if nesting_ok(m):
